@@ -21,3 +21,36 @@ DEFAULT_ABSTRACT = {
 ASSUMED = {
     "invoke:Write:io.Writer": "io.Writer.Write(p) is an opaque environment call: it is recorded as one ghost output event carrying p and is assumed to return a nil error",
 }
+
+
+def image_rect(eng, st, args, site):
+    x0, y0, x1, y1 = args
+    return [(st, StructV([StructV([x0, y0]), StructV([x1, y1])]))]
+
+
+def image_newrgba(eng, st, args, site):
+    tid = eng.p.named.get("image.RGBA")
+    val = eng.zero(tid)
+    # Pix, Stride, Rect
+    fields = eng.p.struct_fields(tid)
+    items = list(val.items)
+    for i, f in enumerate(fields):
+        if f["name"] == "Rect":
+            items[i] = args[0]
+    oid = eng.new_obj(st, StructV(items), tid, "frame")
+    return [(st, Ptr(oid, ()))]
+
+
+def image_setrgba(eng, st, args, site):
+    recv, x, y, c = args
+    comps = tuple(c.items) if isinstance(c, StructV) else (c,)
+    st.trace = st.trace + (("px", x, y) + comps,)
+    return [(st, None)]
+
+
+DEFAULT_ABSTRACT.update({"image.Rect": image_rect, "image.NewRGBA": image_newrgba, "(*image.RGBA).SetRGBA": image_setrgba})
+ASSUMED.update({
+    "image.Rect": "image.Rect(x0,y0,x1,y1) with x0<=x1, y0<=y1 returns that rectangle",
+    "image.NewRGBA": "image.NewRGBA allocates a fresh image of the given bounds",
+    "(*image.RGBA).SetRGBA": "(*image.RGBA).SetRGBA(x,y,c) sets pixel (x,y) of the frame and nothing else; recorded as one ghost pixel event",
+})
